@@ -3,6 +3,7 @@ import OxiddModel.Mtbdd.F64
 import OxiddModel.Mtbdd.Lemmas
 import OxiddModel.Mtbdd.Lemmas2
 import OxiddModel.Mtbdd.LemmasI64
+import OxiddModel.Mtbdd.Canon
 /-!
 # C10 — MTBDD arithmetic is the pointwise lifting of exact terminal arithmetic
 
@@ -267,6 +268,62 @@ theorem var_sem (L : TermOps T) (v : Nat) (σ : Nat → Bool) :
   ⟨rfl, ⟨Or.inr rfl, Or.inl rfl⟩,
     fun h => ⟨⟨trivial, trivial, trivial, trivial⟩,
       ⟨fun e => h (MT.leaf.inj e).symm, trivial, trivial⟩⟩⟩
+
+/-! ## Canonicity (C01 for MTBDDs) and uniqueness of the results -/
+
+omit [DecidableEq T] in
+/-- *Two handles are equal iff they denote the same function*, tree level: two diagrams in normal
+form (ordered, reduced) with the same value under every assignment are the same tree — for every
+terminal type, any number of variables, any depth.  (That equal trees are equal handles is the
+unique-table invariant of the store, C03.) -/
+theorem mtbdd_canonical (a b : MT T) (ha : NF a) (hb : NF b) :
+    (∀ σ, a.eval σ = b.eval σ) → a = b :=
+  canon a b ha hb
+
+-- non-vacuity: two different normal forms are told apart by an assignment; a normal form that
+-- is pointwise equal to a terminal is that terminal
+example : NF (MT.node 0 (.leaf (I64.num 1)) (.node 1 (.leaf I64.pinf) (.leaf I64.nan))) :=
+  ⟨⟨trivial, by simp [lbound], trivial, ⟨trivial, trivial, trivial, trivial⟩⟩,
+    ⟨by decide, trivial, ⟨by decide, trivial, trivial⟩⟩⟩
+example (a : MT I64) (ha : NF a) (h : ∀ σ, a.eval σ = .num 3) : a = .leaf (.num 3) :=
+  mtbdd_canonical a (.leaf (.num 3)) ha (nf_leaf _) h
+
+/-- the result of `apply_bin` is **the** normal form of the pointwise lifting: any normal-form
+diagram `r` whose value is `op` applied to the operands' values everywhere is the tree the
+algorithm returns -/
+theorem mtbdd_apply_unique {L : TermOps T} {ok : T → Prop} (H : TerminalLaws L ok) (op : Op)
+    (f g r : MT T) (hf : NF f) (hg : NF g) (af : f.All ok) (ag : g.All ok) (hr : NF r)
+    (h : ∀ σ, r.eval σ = L.sem op (f.eval σ) (g.eval σ)) : applyBin L op f g = r :=
+  canon _ r (applyBin_nf L op f g hf hg).1 hr (fun σ => by rw [applyBin_sem H op f g σ af ag, h σ])
+
+/-- consequently `apply_bin` is commutative/idempotent/… on diagrams exactly when the scalar
+operation is: e.g. `f + g = g + f` as trees whenever `add` is commutative on the terminals that
+occur -/
+theorem mtbdd_apply_congr {L : TermOps T} {ok : T → Prop} (H : TerminalLaws L ok) (op op' : Op)
+    (f g f' g' : MT T) (hf : NF f) (hg : NF g) (hf' : NF f') (hg' : NF g')
+    (af : f.All ok) (ag : g.All ok) (af' : f'.All ok) (ag' : g'.All ok)
+    (h : ∀ σ, L.sem op (f.eval σ) (g.eval σ) = L.sem op' (f'.eval σ) (g'.eval σ)) :
+    applyBin L op f g = applyBin L op' f' g' :=
+  canon _ _ (applyBin_nf L op f g hf hg).1 (applyBin_nf L op' f' g' hf' hg').1 (fun σ => by
+    rw [applyBin_sem H op f g σ af ag, applyBin_sem H op' f' g' σ af' ag', h σ])
+
+/-- `ite` returns the unique normal form of the pointwise selection -/
+theorem mtbdd_ite_unique {L : TermOps T} (hne : L.zero ≠ L.one) (f g h r : MT T)
+    (hf : NF f) (hg : NF g) (hh : NF h) (hz : ZeroOne L f) (hr : NF r)
+    (hs : ∀ σ, r.eval σ = if f.eval σ = L.one then g.eval σ else h.eval σ) :
+    applyIte L f g h = r :=
+  canon _ r (applyIte_nf L f g h hf hg hh).1 hr (fun σ => by rw [applyIte_sem hne f g h σ hz, hs σ])
+
+/-- `restrict` returns the unique normal form of the cofactor -/
+theorem mtbdd_restrict_unique {L : TermOps T} (hne : L.zero ≠ L.one) (f vars r : MT T)
+    (ls : List (Nat × Bool)) (hf : NF f) (hv : Ordered vars) (hc : IsCube L vars ls) (hr : NF r)
+    (hs : ∀ σ, r.eval σ = f.eval (assign ls σ)) : restrict L f vars = r :=
+  canon _ r (restrict_nf L f vars hf).1 hr (fun σ => by
+    rw [restrict_sem hne f vars ls hf.1 hv hc σ, hs σ])
+
+-- non-vacuity: `x0 + x1` and `x1 + x0` are the same tree (commutativity lifted by uniqueness)
+example : applyBin i64Ops .add (var i64Ops 0) (var i64Ops 1)
+    = applyBin i64Ops .add (var i64Ops 1) (var i64Ops 0) := by decide +kernel
 
 /-! ## `F64` — partial
 
